@@ -132,6 +132,13 @@ def c31(ctx):
     opath = os.path.join(ctx.tmp, "own.ndjson")
     ctx.go_run("solicit", ["-mode", "own", "-out", opath], timeout=3000)
     own = vlib.read_ndjson(opath)
+    barrier = [o for o in own if o["i"] == -1]
+    own = [o for o in own if o["i"] != -1]
+    for x in barrier:
+        ctx.evaluations += x["barrier_trials"]
+        ctx.cov["accept_barrier_trials"] = x["barrier_trials"]
+        if x["barrier_multi_owner"]:
+            ctx.violation("C31:barrier:more than one caller obtained the stream", "%d of %d trials: several of eight simultaneous AcceptMountedStream calls on one value obtained the stream" % (x["barrier_multi_owner"], x["barrier_trials"]), x)
     for o in own:
         rows.append({"i": o["i"], "owners": o["owners"], "closed_true": o["closed_true"], "stream_closes": o["stream_closes"],
                      "accept_after_close": o["accept_after_close"], "kind": "gated" if o["gated"] else "race", "n": 0})
